@@ -31,6 +31,7 @@ type c10Event struct {
 	N    string `json:"n,omitempty"`
 	R    string `json:"r,omitempty"`
 	K    string `json:"k,omitempty"`
+	I    int    `json:"i,omitempty"` // Cb: which of the sender's sends (1-based) registered the callback that ran
 	Fail *bool  `json:"fail,omitempty"`
 	B    *bool  `json:"b,omitempty"`
 }
@@ -299,7 +300,8 @@ func c10RunWith(script string, hist [][]any, slowCb bool, osc *c10OSClient) c10R
 		go func(s string, names []string) {
 			defer sendersWG.Done()
 			defer close(done)
-			for _, n := range names {
+			for si, n := range names {
+				si := si
 				cmd, ok := <-ch
 				if !ok {
 					return
@@ -317,7 +319,7 @@ func c10RunWith(script string, hist [][]any, slowCb bool, osc *c10OSClient) c10R
 					} else if err == nil {
 						k = "nil-nil"
 					}
-					log.put(c10Event{E: "Cb", N: cbName, K: k})
+					log.put(c10Event{E: "Cb", N: cbName, K: k, S: s, I: si + 1})
 					log.linger()
 				})
 				r := "ok"
